@@ -6,7 +6,7 @@ from xml.etree import ElementTree
 from .decodestate import DecodeState
 from .encodestate import EncodeState
 from .encoding import Encoding
-from .exceptions import odxassert, odxraise, odxrequire
+from .exceptions import EncodeError, odxassert, odxraise, odxrequire
 from .odxlink import OdxDocFragment, OdxLinkDatabase, OdxLinkId
 from .odxtypes import AtomicOdxType, DataType, odxstr_to_bool
 from .snrefcontext import SnRefContext
@@ -88,12 +88,20 @@ class DiagCodedType:
                 odxraise()
 
             # TODO: Handle different encodings
-            byte_length = len(bytes(internal_value, "utf-8"))
+            try:
+                byte_length = len(bytes(internal_value, "utf-8"))
+            except UnicodeError:
+                odxraise(f"The string {internal_value!r} cannot be encoded", EncodeError)
+                byte_length = len(bytes(internal_value, "utf-8", errors="replace"))
         elif self.base_data_type == DataType.A_UNICODE2STRING:
             if not isinstance(internal_value, str):
                 odxraise()
 
-            byte_length = len(bytes(internal_value, "utf-16-le"))
+            try:
+                byte_length = len(bytes(internal_value, "utf-16-le"))
+            except UnicodeError:
+                odxraise(f"The string {internal_value!r} cannot be encoded", EncodeError)
+                byte_length = len(bytes(internal_value, "utf-16-le", errors="replace"))
             odxassert(
                 byte_length % 2 == 0, f"The bit length of A_UNICODE2STRING must"
                 f" be a multiple of 16 but is {8*byte_length}")
